@@ -16,7 +16,7 @@ var allUnary = []peg.Kind{peg.KOpt, peg.KStar, peg.KPlus, peg.KAnd, peg.KNot}
 func init() {
 	register(&Check{
 		ID: "C01", Level: "exploration", QuickSecs: 150, ThoroughSecs: 1500,
-		Rule:        "all grammars S <- v:(body){probe} with body over {'a','b',\"ab\",\"\",[ab],[^a],.} x {?,*,+,&,!} x seq/choice (arity<=3) up to N nodes (quick 5, thorough 6), a second family with i-flag/Unicode terminals, a two-rule family with every Entrypoint, every single label+action decoration of bodies up to 4 nodes, rule graphs (reference graphs over four rules with dead, shared and recursive rules) generated with -optimize-grammar, a case sweep (EVERY rune with a case variant below U+3000 and in the later cased blocks as i-literal, as first rune of a longer i-literal and as i-class, against each member of its case orbit), and a family generated with -optimize-grammar (one leaf rule inlined at two places next to different neighbours, compared on success, prefix and flat value); x all inputs over the family's alphabet up to L; x 4 generation flag sets; each compared with the reference PEG interpreter (success, consumed prefix, exact value shape). Non-trivial = the reference backtracked over consumed input.",
+		Rule:        "all grammars S <- v:(body){probe} with body over {'a','b',\"ab\",\"\",[ab],[^a],.} x {?,*,+,&,!} x seq/choice (arity<=3) up to N nodes (quick 5, thorough 6), a second family with i-flag/Unicode terminals, a two-rule family with every Entrypoint, every single label+action decoration of bodies up to 4 nodes, left-recursive grammars generated with -support-left-recursion (direct tower, indirect pairs in both name orders; default options and Memoize(true)), rule graphs (reference graphs over four rules with dead, shared and recursive rules) generated with -optimize-grammar, a case sweep (EVERY rune with a case variant below U+3000 and in the later cased blocks as i-literal, as first rune of a longer i-literal and as i-class, against each member of its case orbit), and a family generated with -optimize-grammar (one leaf rule inlined at two places next to different neighbours, compared on success, prefix and flat value); x all inputs over the family's alphabet up to L; x 4 generation flag sets; each compared with the reference PEG interpreter (success, consumed prefix, exact value shape). Non-trivial = the reference backtracked over consumed input.",
 		Assumptions: []string{"runtime loaded through E1 (emitted grammar literal rebuilt in-process into the working tree's static code); bound to the compiler path by the conformance check", "code blocks are scripted probes"},
 		Run:         runC01,
 	})
@@ -103,6 +103,43 @@ func runC01(c *ShardCtx) {
 			return
 		}
 		optGrammarVsReference(c, wrapFirst(ga.g), []core.Gen{{OptGrammar: true}, {OptGrammar: true, Optimize: true, BasicLatin: true}}, inputs5, "-optimize-grammar")
+	}
+	// family 7: left-recursive grammars (-support-left-recursion; direct, indirect pairs in both name
+	// orders, a tower) with default options and with Memoize(true): success, consumed prefix and
+	// value against the reference (seed growing at the cycle's leader)
+	{
+		lit := peg.Lit
+		var lrs []struct {
+			g      *peg.Grammar
+			leader string
+		}
+		for _, t := range []string{"a", "b"} {
+			for _, names := range [][2]string{{"A", "B"}, {"B", "A"}} {
+				x, y := names[0], names[1]
+				lrs = append(lrs, struct {
+					g      *peg.Grammar
+					leader string
+				}{wrapRef(x, &peg.Rule{Name: x, Expr: peg.Choice(peg.Seq(peg.Ref(y), lit(t)), lit("a"))}, &peg.Rule{Name: y, Expr: peg.Choice(peg.Seq(peg.Ref(x), lit("b")), lit("b"))}), "A"})
+			}
+			lrs = append(lrs, struct {
+				g      *peg.Grammar
+				leader string
+			}{wrapRef("E", &peg.Rule{Name: "E", Expr: peg.Choice(peg.Seq(peg.Ref("E"), lit(t), peg.Ref("T")), peg.Ref("T"))}, &peg.Rule{Name: "T", Expr: peg.Choice(peg.Seq(peg.Ref("T"), lit("b"), lit("a")), lit("a"))}), ""})
+		}
+		fam7 := &family{gens: []core.Gen{{LeftRec: true}, {LeftRec: true, Optimize: true}}, inputs: peg.Inputs([]string{"a", "b"}, 5), opts: []rtapi.RunOpts{{MaxExpr: 6000}, {MaxExpr: 6000, Memoize: true}},
+			nontrivial: func(ref *peg.Result, _ *rtapi.Obs) bool { return ref.Matched }, confEvery: 3, confQuota: 1, cmp: core.CmpOpts{SkipLog: true}}
+		for _, lr := range lrs {
+			idx++
+			if !c.Mine(idx) {
+				continue
+			}
+			f := *fam7
+			if lr.leader != "" {
+				ld := lr.leader
+				f.refOpts = func(o *peg.Options) { o.LeaderHeads = map[string]bool{ld: true} }
+			}
+			runGrammar(c, lr.g, &f)
+		}
 	}
 	// family 5b: rule graphs through -optimize-grammar (dead rules, shared recursive rules, leaf rules
 	// inlined into removed rules): the start rule still matches what it matched
@@ -193,6 +230,11 @@ func runC01(c *ShardCtx) {
 			runGrammar(c, wrap(dec), fam4)
 		}
 	}
+}
+
+// wrapRef is S <- v:Rule {probe} in front of the given rules.
+func wrapRef(name string, rules ...*peg.Rule) *peg.Grammar {
+	return wrap(peg.Ref(name), rules...)
 }
 
 // wrapFirst puts the first rule's expression under the standard top action so
